@@ -23,7 +23,14 @@ import (
 	"mhubsim/sim"
 )
 
-const verifDir = "/verif"
+// verifDir is where evidence, replays, work files and known_findings.json live (MHUBSIM_ROOT overrides it for
+// background exploration runs from a snapshot; registered checks always use /verif).
+var verifDir = func() string {
+	if d := os.Getenv("MHUBSIM_ROOT"); d != "" {
+		return d
+	}
+	return "/verif"
+}()
 
 func main() {
 	if len(os.Args) < 2 {
